@@ -81,6 +81,15 @@ def streams(sp, tf, first):
         for tail in A.words(sp["abs_sigma"], sp["abs_n"]):
             w = f + tail + "FFF"
             yield ("frac", w), raw_stream(w, "+" if tf else "b", ("h" if tf else "t") * (len(w) - 1), tf, var=fine)
+    elif fam == "late":
+        # the same absolute words starting a few minutes before midnight (and before a month / year end): calendar edges
+        from datetime import datetime as _dt
+        for base in (_dt(2024, 3, 4, 23, 56), _dt(2023, 12, 31, 23, 57)):
+            var = dict(A.variant(), base=base)
+            for tail in A.words(sp["abs_sigma"], sp["abs_n"] - 1):
+                w = f + tail + "FUD"
+                gaps = "".join("hth2t"[i % 5] for i in range(len(w) - 1)) if tf else "t" * (len(w) - 1)
+                yield ("late", w + base.strftime("@%m%d")), raw_stream(w, "+" if tf else "b", gaps, tf, var=var)
     elif fam == "rel":
         for n in range(1, sp["rel_n"]):
             for tail in A.words(sp["rel_sigma"], n):
@@ -270,8 +279,10 @@ def check_c10(rep, cfg, ind, case):
 
 def run_case(prop, rep, cfg, tfc, fam, word, raw, horizon):
     kind = cfg.get("cls", cfg.get("analysis"))
-    for mode in ("append1", "batch", "batch+calculate_index"):
+    for mode in ("append1", "batch", "batch+calculate_index", "restart"):
         if mode == "batch+calculate_index" and (prop != "C10" or len(raw) < 3 or fam not in ("abs", "frac")):
+            continue
+        if mode == "restart" and (len(raw) < 4 or fam not in ("abs", "late")):
             continue
         case = {"cfg": cfg["label"], "tfc": tfc, "fam": fam, "word": word, "raw": raw, "mode": mode}
         try:
@@ -284,6 +295,15 @@ def run_case(prop, rep, cfg, tfc, fam, word, raw, horizon):
                         ind.calculate_index(len(ind.candles) - 1)
                         ind.calculate_index(-2)
                         rep.inc("transitions", 2)
+                elif mode == "restart":
+                    # a second instance takes over the already calculated candles of a first one (strategy restart)
+                    k = len(raw) // 2
+                    first = make(cfg, candles=fresh(raw[:k]), **host_kw(tfc))
+                    first.calculate()
+                    ind = make(cfg, candles=first.candles, **host_kw(tfc))
+                    for c in fresh(raw[k:]):
+                        ind.append(c)
+                    rep.inc("transitions", len(raw) - k + 1)
                 else:
                     ind = make(cfg, **host_kw(tfc))
                     for c in fresh(raw):
@@ -344,6 +364,7 @@ def main(prop, tier):
                 items.append((prop, tier, cfg["label"], tfc, ("st", f)))
             for f in sp["abs_sigma"]:
                 items.append((prop, tier, cfg["label"], tfc, ("frac", f)))
+                items.append((prop, tier, cfg["label"], tfc, ("late", f)))
     rep = merge_all(pmap(explore, items, chunksize=4))
     rule = ("every word of three stream families (absolute shapes sigma^n incl. flat-start prefixes; relative close steps "
             "{+1,-1,0 with wicks, 0 flat zero-volume, +2,-2 bodies}^<=n incl. all monotone runs; stutter words with runs of 16+ identical "
